@@ -19,13 +19,14 @@ Apis == IF Family = "risorcall" THEN {"RisorCall", "Call"} ELSE {"RunCode", "Cal
 \* overflows, or is cancelled mid-run
 Kinds == IF Family = "import" THEN {"impmod", "impok", "imperr", "impcancel"}
          \* deferred calls that defer again: 40 deep (completes) and 1000 deep ending in a Go panic that the API recovers
-         ELSE IF Family = "defer" THEN {"normal", "error", "defernest", "deferpanic"}
+         \* toperror: an index error at top level while the items of a list literal are pending on the operand stack
+         ELSE IF Family = "defer" THEN {"normal", "error", "defernest", "deferpanic", "toperror"}
          ELSE IF Family = "risorcall" THEN {"normal", "error", "cancelled", "badargs"}   \* badargs: wrong argument count
          ELSE {"normal", "error", "panic", "deeppanic", "overflow", "opoverflow", "cancelled"}
 \* the context the invocation runs under: cancellable, or context.Background() (no Done channel)
-CtxKinds(kind) == IF kind \in {"normal", "error", "impok", "imperr", "impmod", "badargs", "defernest"} THEN {"cancel", "background"} ELSE {"cancel"}
+CtxKinds(kind) == IF kind \in {"normal", "error", "impok", "imperr", "impmod", "badargs", "defernest", "toperror"} THEN {"cancel", "background"} ELSE {"cancel"}
 Expected(kind) == CASE kind \in {"normal", "impok", "impmod", "defernest"} -> "value" [] kind = "deferpanic" -> "anyerror" [] kind \in {"imperr", "badargs"} -> "anyerror" [] kind = "impcancel" -> "ctxerr"
-                    [] kind = "error" -> "index error" [] kind \in {"panic", "deeppanic"} -> "panic"
+                    [] kind \in {"error", "toperror"} -> "index error" [] kind \in {"panic", "deeppanic"} -> "panic"
                     [] kind \in {"overflow", "opoverflow"} -> "anyerror" [] kind = "cancelled" -> "ctxerr"
 \* invocation i may cancel the context of any earlier invocation (the interesting ones: those that finished)
 Inv(i) == UNION {[api : Apis, kind : {k}, ctx : CtxKinds(k), late : SUBSET (1..(i - 1))] : k \in Kinds}
